@@ -370,7 +370,13 @@ pub fn probes(w: &World, rec: &mut Recorder, ix: &Ix, cfg: &MatrixCfg, rng_salt:
                 if let Some(me) = rec_of(&cur) {
                     let mut scored: Vec<(usize, String)> = cands
                         .iter()
-                        .map(|c| (rec_of(c).map(|o| o.iter().filter(|(k, v)| me.get(*k) == Some(*v)).count()).unwrap_or(0), c.clone()))
+                        .map(|c| {
+                            // fields that say WHOSE account it is weigh ten times the descriptive ones
+                            let score = rec_of(c)
+                                .map(|o| o.iter().filter(|(k, v)| me.get(*k) == Some(*v)).map(|(k, _)| if ["pool", "mint", "owner", "cfg", "prog", "delegate", "start"].contains(&k.as_str()) { 10 } else { 1 }).sum::<usize>())
+                                .unwrap_or(0);
+                            (score, c.clone())
+                        })
                         .collect();
                     scored.sort_by(|a, b| b.0.cmp(&a.0).then(a.1.cmp(&b.1)));
                     keep = scored.into_iter().take(cfg.max_subst_per_slot / 2).map(|x| x.1).collect();
@@ -603,5 +609,24 @@ pub fn run(cfg: &MatrixCfg, rec: &mut Recorder) {
     w.cfgs.get_mut("C1").unwrap().collect_auth = "U3".into();
     { let ix = w.ix_set_fee_rate("P2", 1000); step(&mut w, rec, cfg, &mut n, ix); }
     { let ix = w.ix_collect_protocol_fees("P2", "U3", false); step(&mut w, rec, cfg, &mut n, ix); }
+    // ---- C19: a config created with an out-of-bound default protocol fee rate must not lead to a pool carrying that rate
+    for rate in [2_500u16, 2_501, u16::MAX] {
+        let mut c = w.clone();
+        rec.reset(&mut c, json!({"scenario": "config_default_protocol_fee_rate", "rate": rate}));
+        let cname = format!("CB{rate}");
+        let (ix, info) = c.ix_init_config(&cname, rate);
+        if !rec.exec(&mut c, &ix, rate <= 2_500, json!(null)).ok() {
+            continue;
+        }
+        c.cfgs.insert(cname.clone(), info);
+        let ix = c.ix_init_fee_tier(&cname, 64, 3000);
+        if !rec.exec(&mut c, &ix, false, json!(null)).ok() {
+            continue;
+        }
+        let ix = c.ix_init_pool(&format!("PB{rate}"), &cname, "A", "B", 64, price_of(0));
+        rec.exec(&mut c, &ix, false, json!(null));
+        let ix = c.ix_init_pool_v2(&format!("PV{rate}"), &cname, "B", "C", 64, price_of(0));
+        rec.exec(&mut c, &ix, false, json!(null));
+    }
     rec.flush();
 }
